@@ -6,7 +6,7 @@ import typed_gen as tg
 import vlib
 from props import c03 as base
 
-GEN = []
+GEN = ["GenSrcDigest"]
 TRUSTED = base.TRUSTED + [
     "tools/lua_run.py (LuaCore, Lua 5.3 reference dialect) as the interpreter that runs the real emitted Lua and the real "
     "preamble.lua; the class of a run-time failure is read off its error message",
